@@ -53,6 +53,7 @@ namespace c14
         long ctors = 0, dtors = 0;
         bool strict = false; // a container member function is running
         bool loose = false;  // no regions: every Tracked object anywhere is on the ledger (heap arrays)
+        long throw_in = -1;  // >= 0: that many more Tracked constructions inside a member function succeed, the next one throws
 
         void reset()
         {
@@ -63,7 +64,11 @@ namespace c14
             ctors = dtors = 0;
             strict = false;
             loose = false;
+            throw_in = -1;
         }
+        // called first thing by every Tracked constructor: a constructor that
+        // throws has constructed nothing and touched nothing
+        void tick();
         void err(const std::string &s)
         {
             if (errors.size() < 8)
@@ -234,19 +239,36 @@ namespace c14
         return l;
     }
 
+    struct Thrown
+    {
+    };
+    inline void Ledger::tick()
+    {
+        if (!strict || throw_in < 0)
+            return;
+        if (throw_in == 0)
+        {
+            throw_in = -1;
+            throw Thrown{};
+        }
+        throw_in--;
+    }
+
     struct Tracked
     {
         int v;
         int moved;
-        Tracked() : v(0), moved(0) { L().on_ctor(this); }
-        Tracked(int x) : v(x), moved(0) { L().on_ctor(this); }
+        Tracked() : v(0), moved(0) { L().tick(); L().on_ctor(this); }
+        Tracked(int x) : v(x), moved(0) { L().tick(); L().on_ctor(this); }
         Tracked(const Tracked &o) : v(o.v), moved(o.moved)
         {
+            L().tick();
             L().on_read(&o);
             L().on_ctor(this);
         }
         Tracked(Tracked &&o) : v(o.v), moved(o.moved)
         {
+            L().tick();
             L().on_moved(&o);
             o.v = -1;
             o.moved = 1;
@@ -282,6 +304,12 @@ namespace c14
         bool operator==(const RE &o) const { return moved == o.moved && (moved || v == o.v); }
     };
     inline std::string show(const RE &e) { return e.moved ? "~" : std::to_string(e.v); }
+
+    // capacities >= HUGE_N: the contents are printed as a 32-bit digest
+    // (h = 7; h = h * 31 + (moved ? 0 : v + 1)) instead of element by element
+    constexpr size_t HUGE_N = 1000;
+    inline void digest_add(uint32_t &h, uint32_t x) { h = h * 31u + x; }
+    inline std::string digest_show(uint32_t h) { return "#" + hv::hexn(h, 8); }
 
     template <class T> struct ElemTraits;
     template <> struct ElemTraits<int>
@@ -332,6 +360,15 @@ namespace c14
             return true;
         }
         ~Place() { free(block); }
+    };
+
+    // "a container member function is running" for the ledger; a guard, so that
+    // an exception leaving the member function ends it before the harness's own
+    // temporaries are destroyed
+    struct Strict
+    {
+        Strict() { L().strict = true; }
+        ~Strict() { L().strict = false; }
     };
 
     struct IMachine
@@ -450,9 +487,9 @@ namespace c14
 
         void destroy_reg(int r, hv::out &o)
         {
-            L().strict = true;
+            { Strict _g;
             regs[r].v->~Vec();
-            L().strict = false;
+            }
             if (ET::trk)
                 for (auto &rg : L().regions)
                     if (rg.reg == r)
@@ -467,13 +504,83 @@ namespace c14
             regs[r].place.reset();
         }
 
-        void op(const std::vector<std::string> &w, hv::out &o) override
+        // the element constructor threw inside `w` (its (k+1)-th construction):
+        // what the reference sequences are now.  A constructor that throws
+        // leaves no object and nothing it constructed; an assignment / resize
+        // keeps what it had constructed so far; push/emplace change nothing.
+        void after_throw(const std::vector<std::string> &w, size_t k, hv::out &o)
         {
             const std::string &c = w[0];
             auto R = [&](size_t i) { return i < w.size() ? atoi(w[i].c_str()) : -1; };
             int r = R(1), s = R(2);
-            bool bad = false;
+            o.tag("threw");
+            auto moved_prefix = [&](int q) {
+                if (ET::trk)
+                    for (size_t i = 0; i < k && i < regs[q].ref.size(); i++)
+                        regs[q].ref[i].moved = true;
+            };
+            auto prefix = [&](int q) {
+                std::vector<RE> p(regs[q].ref.begin(), regs[q].ref.begin() + std::min(k, regs[q].ref.size()));
+                return p;
+            };
+            if (c == "copy" || c == "move" || c == "range" || c == "il")
+            {
+                for (auto &rg : L().regions)
+                    if (rg.reg == r)
+                    {
+                        size_t n = L().live_in(rg);
+                        if (n)
+                            o.fail("the constructor of container " + std::to_string(r) + " threw and left " + std::to_string(n) + " element(s) behind");
+                    }
+                unregister(r);
+                regs[r].v = nullptr;
+                regs[r].ref.clear();
+                regs[r].place.reset();
+                if (c == "move")
+                    moved_prefix(s);
+            }
+            else if (c == "acopy")
+                regs[r].ref = prefix(s);
+            else if (c == "amove")
+            {
+                regs[r].ref = prefix(s);
+                moved_prefix(s);
+            }
+            else if (c == "resize")
+                for (size_t i = 0; i < k; i++)
+                    regs[r].ref.push_back({0, false});
+            // push / emplace: strong guarantee, nothing changes
+        }
+
+        void op(const std::vector<std::string> &w0, hv::out &o) override
+        {
+            // `thr k <op>`: the (k+1)-th element construction inside <op> throws
+            std::vector<std::string> wbuf;
+            long thr = -1;
+            if (w0[0] == "thr")
+            {
+                if (w0.size() < 3)
+                {
+                    o.result = "bad-op";
+                    return;
+                }
+                if (!ET::trk)
+                {
+                    o.result = "bad"; // int has no constructor that could throw
+                    return;
+                }
+                thr = atol(w0[1].c_str());
+                wbuf.assign(w0.begin() + 2, w0.end());
+            }
+            const std::vector<std::string> &w = thr >= 0 ? wbuf : w0;
+            const std::string &c = w[0];
+            auto R = [&](size_t i) { return i < w.size() ? atoi(w[i].c_str()) : -1; };
+            int r = R(1), s = R(2);
+            bool bad = false, thrown = false;
             L().events.clear();
+            L().throw_in = thr;
+            try
+            {
             if (c == "new")
             {
                 if (!empty_reg(r)) bad = true;
@@ -481,9 +588,9 @@ namespace c14
                 {
                     void *m = place(r);
                     preregister(r, m);
-                    L().strict = true;
+                    { Strict _g;
                     regs[r].v = new (m) Vec();
-                    L().strict = false;
+                    }
                     regs[r].ref.clear();
                 }
             }
@@ -494,12 +601,12 @@ namespace c14
                 {
                     void *m = place(r);
                     preregister(r, m);
-                    L().strict = true;
+                    { Strict _g;
                     if (c == "copy")
                         regs[r].v = new (m) Vec(*(const Vec *)regs[s].v);
                     else
                         regs[r].v = new (m) Vec(std::move(*regs[s].v));
-                    L().strict = false;
+                    }
                     regs[r].ref = regs[s].ref;
                     if (c == "move")
                     {
@@ -519,12 +626,26 @@ namespace c14
                     {
                         std::vector<int> xs = ints_from(w, 2);
                         // the argument lives in an exactly sized heap array
-                        T *src = (T *)malloc(xs.size() ? xs.size() * sizeof(T) : 1);
+                        struct SrcGuard
+                        {
+                            T *p;
+                            size_t n;
+                            ~SrcGuard()
+                            {
+                                for (size_t i = 0; i < n; i++)
+                                    p[i].~T();
+                                free(p);
+                            }
+                        } guard{(T *)malloc(xs.size() ? xs.size() * sizeof(T) : 1), 0};
+                        T *src = guard.p;
                         for (size_t i = 0; i < xs.size(); i++)
+                        {
                             new (src + i) T(ET::make(xs[i]));
+                            guard.n = i + 1;
+                        }
                         void *m = place(r);
                         preregister(r, m);
-                        L().strict = true;
+                        { Strict _g;
                         if (c == "range")
                             regs[r].v = new (m) Vec((const T *)src, (const T *)src + xs.size());
                         else
@@ -532,10 +653,7 @@ namespace c14
                             std::initializer_list<T> il = make_il<T>(src, xs.size());
                             regs[r].v = new (m) Vec(il);
                         }
-                        L().strict = false;
-                        for (size_t i = 0; i < xs.size(); i++)
-                            src[i].~T();
-                        free(src);
+                        }
                         regs[r].ref = take_n(xs);
                         if (xs.size() > N) o.tag("ctor-excess");
                         if (xs.size() == N) o.tag("ctor-exact");
@@ -547,12 +665,12 @@ namespace c14
                 if (!has(r) || !has(s)) bad = true;
                 else
                 {
-                    L().strict = true;
+                    { Strict _g;
                     if (c == "acopy")
                         *regs[r].v = *(const Vec *)regs[s].v;
                     else
                         *regs[r].v = std::move(*regs[s].v);
-                    L().strict = false;
+                    }
                     if (r == s) o.tag("self-assign");
                     else
                     {
@@ -573,15 +691,15 @@ namespace c14
                     if (c == "push")
                     {
                         T tmp = ET::make(x);
-                        L().strict = true;
+                        { Strict _g;
                         regs[r].v->push_back(tmp);
-                        L().strict = false;
+                        }
                     }
                     else
                     {
-                        L().strict = true;
+                        { Strict _g;
                         regs[r].v->emplace_back(x);
-                        L().strict = false;
+                        }
                     }
                     if (regs[r].ref.size() < N)
                         regs[r].ref.push_back({x, false});
@@ -595,9 +713,9 @@ namespace c14
                     size_t n = (size_t)R(2);
                     if (n > N) o.tag("resize-clamp");
                     if (n < regs[r].ref.size()) o.tag("resize-shrink");
-                    L().strict = true;
+                    { Strict _g;
                     regs[r].v->resize(n);
-                    L().strict = false;
+                    }
                     size_t m = n > N ? N : n;
                     if (m <= regs[r].ref.size())
                         regs[r].ref.resize(m);
@@ -619,11 +737,38 @@ namespace c14
                         if (i == j) o.tag("erase-empty");
                         else if ((size_t)j < regs[r].ref.size()) o.tag("erase-middle");
                         else o.tag("erase-tail");
-                        L().strict = true;
+                        { Strict _g;
                         regs[r].v->erase(regs[r].v->begin() + i, regs[r].v->begin() + j);
-                        L().strict = false;
+                        }
                         regs[r].ref.erase(regs[r].ref.begin() + i, regs[r].ref.begin() + j);
                     }
+                }
+            }
+            else if (c == "at" || c == "front" || c == "back")
+            {
+                // read accessors: operator[], data(), begin()/end(), front(), back(), const and non-const
+                size_t sz = has(r) ? regs[r].ref.size() : 0;
+                long idx = c == "at" ? s : c == "front" ? 0 : (long)sz - 1;
+                if (!has(r) || sz == 0 || idx < 0 || (size_t)idx >= sz) bad = true;
+                else
+                {
+                    Vec &v = *regs[r].v;
+                    const Vec &cv = v;
+                    size_t i = (size_t)idx;
+                    RE e = c == "at" ? ET::get(v[i]) : c == "front" ? ET::get(v.front()) : ET::get(v.back());
+                    RE alt[] = {ET::get(cv[i]), ET::get(v.data()[i]), ET::get(cv.data()[i]), ET::get(*(v.begin() + i)),
+                                ET::get(*(cv.begin() + i)), ET::get(*(cv.end() - (sz - i))), ET::get(*(v.end() - (sz - i))),
+                                c == "back" ? ET::get(cv.back()) : ET::get(cv.front())};
+                    for (size_t q = 0; q < 7; q++)
+                        if (!(alt[q] == e)) o.fail("accessors disagree on element " + std::to_string(i));
+                    if (c != "at" && !(alt[7] == e)) o.fail("const " + c + "() disagrees");
+                    if (!(e == regs[r].ref[i])) o.fail(c + ": element " + std::to_string(i) + " is " + show(e) + " expected " + show(regs[r].ref[i]));
+                    if (i + 1 == N) o.tag("access-last-slot");
+                    for (auto &er : L().errors) o.fail(er);
+                    L().errors.clear();
+                    L().throw_in = -1;
+                    o.result = show(e);
+                    return;
                 }
             }
             else if (c == "clear")
@@ -632,9 +777,9 @@ namespace c14
                 else
                 {
                     if (!regs[r].ref.empty()) o.tag("clear-live");
-                    L().strict = true;
+                    { Strict _g;
                     regs[r].v->clear();
-                    L().strict = false;
+                    }
                     regs[r].ref.clear();
                 }
             }
@@ -659,15 +804,24 @@ namespace c14
             }
             else
             {
+                L().throw_in = -1;
                 o.result = "bad-op";
                 return;
             }
+            }
+            catch (const Thrown &)
+            {
+                thrown = true;
+            }
+            L().throw_in = -1;
             if (bad)
             {
                 o.result = "bad";
                 L().events.clear();
                 return;
             }
+            if (thrown)
+                after_throw(w, (size_t)thr, o);
             // ---- observe + oracle
             std::string st;
             size_t total = 0;
@@ -695,16 +849,24 @@ namespace c14
                 const std::vector<RE> &ref = regs[q].ref;
                 if (v.size() != ref.size())
                     o.fail("container " + std::to_string(q) + " size " + std::to_string(v.size()) + " expected " + std::to_string(ref.size()));
+                uint32_t dg = 7;
                 for (size_t i = 0; i < sz; i++)
                 {
                     RE e = ET::get(cv[i]);
-                    if (i) st += ",";
-                    st += show(e);
+                    if (N >= HUGE_N)
+                        digest_add(dg, e.moved ? 0u : (uint32_t)e.v + 1u);
+                    else
+                    {
+                        if (i) st += ",";
+                        st += show(e);
+                    }
                     if (i < ref.size() && !(e == ref[i]))
                         o.fail("container " + std::to_string(q) + " element " + std::to_string(i) + " is " + show(e) + " expected " + show(ref[i]));
                     if (!(ET::get(v.data()[i]) == e) || !(ET::get(*(cv.begin() + i)) == e))
                         o.fail("data()/begin() disagree with operator[]");
                 }
+                if (N >= HUGE_N)
+                    st += digest_show(dg);
                 st += "]";
                 if ((size_t)(cv.end() - cv.begin()) != v.size()) o.fail("end()-begin()");
                 if (sz && sz == v.size())
@@ -736,6 +898,8 @@ namespace c14
                 if ((size_t)(L().ctors - L().dtors) != total)
                     o.fail("ledger: " + std::to_string(L().ctors - L().dtors) + " live elements, sizes sum to " + std::to_string(total));
                 o.result = st + " | " + L().take_events() + " | " + std::to_string(L().ctors - L().dtors);
+                if (thr >= 0)
+                    o.result += thrown ? " | threw" : " | done";
             }
             else
                 o.result = st + " | - | -";
@@ -765,6 +929,14 @@ namespace c14
             return regs[r].place->obj;
         }
         static std::string cut(const std::string &s) { return s.substr(0, std::min(s.size(), N)); }
+        // bytes as hex, or (capacities >= HUGE_N) as "#digest/length"
+        static std::string showb(const std::string &s)
+        {
+            if (N < HUGE_N) return hv::hex(s);
+            uint32_t h = 7;
+            for (unsigned char ch : s) digest_add(h, (uint32_t)ch + 1u);
+            return digest_show(h) + "/" + std::to_string(s.size());
+        }
 
         template <size_t VS, size_t SS> void do_split(Str &s, char d, const std::string &ref, hv::out &o)
         {
@@ -887,10 +1059,10 @@ namespace c14
                 {
                     const char *p = regs[r].s->c_str();
                     std::string got(p);
-                    res = hv::hex(got);
+                    res = showb(got);
                     // the C string is the contents up to its first NUL
                     std::string want = regs[r].ref.substr(0, std::min(regs[r].ref.size(), strlen(regs[r].ref.c_str())));
-                    if (got != want) o.fail("c_str() = " + hv::hex(got) + " expected " + hv::hex(want));
+                    if (got != want) o.fail("c_str() = " + showb(got.substr(0, 24)) + " (" + std::to_string(got.size()) + " chars) expected " + showb(want.substr(0, 24)) + " (" + std::to_string(want.size()) + " chars)");
                     if (regs[r].ref.size() == N) o.tag("cstr-full");
                 }
             }
@@ -920,7 +1092,7 @@ namespace c14
             else if (c == "ssplit")
             {
                 int d = B(2), vs = R(3), ss = R(4);
-                if constexpr (!port) bad = true;
+                if constexpr (!port || (N > 8)) bad = true; // split is exercised at the small capacities only
                 else if (!has(r) || d < 0) bad = true;
                 else
                 {
@@ -959,34 +1131,74 @@ namespace c14
                 if (s.room() != N - s.size()) o.fail("room");
                 std::string got;
                 for (size_t i = 0; i < sz; i++) got.push_back(s[i]);
-                st += std::to_string(s.size()) + "/" + std::to_string(s.room()) + ":" + hv::hex(got);
+                st += std::to_string(s.size()) + "/" + std::to_string(s.room()) + ":" + showb(got);
                 if (got != regs[q].ref || s.size() != regs[q].ref.size())
-                    o.fail("string " + std::to_string(q) + " is " + hv::hex(got) + " expected " + hv::hex(regs[q].ref));
+                    o.fail("string " + std::to_string(q) + " is " + showb(got.substr(0, 24)) + " (size " + std::to_string(s.size()) + ") expected " + showb(regs[q].ref.substr(0, 24)) + " (size " + std::to_string(regs[q].ref.size()) + ")");
                 if ((size_t)(s.end() - s.begin()) != s.size()) o.fail("end()-begin()");
+                if ((const void *)s.begin() != (const void *)&s[0]) o.fail("begin() is not &s[0]");
+                if constexpr (port)
+                    if ((const void *)s.data() != (const void *)&s[0]) o.fail("data() is not &s[0]");
                 if (!regs[q].place->intact()) o.fail("canary around string " + std::to_string(q) + " overwritten");
             }
             o.result = res + " | " + st;
         }
     };
 
-    template <class Twin> IMachine *make_vec(bool trk, size_t N, int K, bool canary)
-    {
 #define C14_V(n) if (N == n) return trk ? (IMachine *)new VMachine<Twin, Tracked, n>(K, canary) : (IMachine *)new VMachine<Twin, int, n>(K, canary);
-        C14_V(1) C14_V(2) C14_V(3) C14_V(8)
-#undef C14_V
-        return nullptr;
-    }
-    template <class Twin> IMachine *make_str(size_t N, int K, bool canary)
-    {
+#define C14_VT(n) if (N == n && trk) return new VMachine<Twin, Tracked, n>(K, canary);
+#define C14_VI(n) if (N == n && !trk) return new VMachine<Twin, int, n>(K, canary);
 #define C14_S(n) if (N == n) return new SMachine<Twin, n>(K, canary);
-        C14_S(1) C14_S(2) C14_S(3) C14_S(8)
-#undef C14_S
+    // One translation unit per group of instantiations and twin (the build runs
+    // them in parallel): harness/C14/{c,p}_{small_trk,small_rest,big_trk,big_rest}.cpp.
+    // The groups `big_*` hold the boundaries of a narrowed size counter (int8_t:
+    // 128 values, uint8_t: 256, uint16_t: 65536): capacities just below, at
+    // and above them (Tracked elements at 255..257, int at 65535..65537,
+    // strings at all of them).
+    template <class Twin> IMachine *make_small_trk(bool str, bool trk, size_t N, int K, bool canary)
+    {
+        if (str) return nullptr;
+        C14_VT(1) C14_VT(2) C14_VT(3) C14_VT(8)
         return nullptr;
     }
+    template <class Twin> IMachine *make_small_rest(bool str, bool trk, size_t N, int K, bool canary)
+    {
+        if (str)
+        {
+            C14_S(1) C14_S(2) C14_S(3) C14_S(8)
+            return nullptr;
+        }
+        C14_VI(1) C14_VI(2) C14_VI(3) C14_VI(8)
+        return nullptr;
+    }
+    template <class Twin> IMachine *make_big_trk(bool str, bool trk, size_t N, int K, bool canary)
+    {
+        if (str) return nullptr;
+        C14_VT(255) C14_VT(256) C14_VT(257)
+        return nullptr;
+    }
+    template <class Twin> IMachine *make_big_rest(bool str, bool trk, size_t N, int K, bool canary)
+    {
+        if (str)
+        {
+            C14_S(127) C14_S(128) C14_S(255) C14_S(256) C14_S(257) C14_S(65535) C14_S(65536) C14_S(65537)
+            return nullptr;
+        }
+        C14_VI(65535) C14_VI(65536) C14_VI(65537)
+        return nullptr;
+    }
+#undef C14_V
+#undef C14_VT
+#undef C14_VI
+#undef C14_S
 
-    // defined in harness/C14/portable.cpp
-    IMachine *make_vec_portable(bool trk, size_t N, int K, bool canary);
-    IMachine *make_str_portable(size_t N, int K, bool canary);
+    IMachine *make_c_small_trk(bool str, bool trk, size_t N, int K, bool canary);
+    IMachine *make_c_small_rest(bool str, bool trk, size_t N, int K, bool canary);
+    IMachine *make_c_big_trk(bool str, bool trk, size_t N, int K, bool canary);
+    IMachine *make_c_big_rest(bool str, bool trk, size_t N, int K, bool canary);
+    IMachine *make_p_small_trk(bool str, bool trk, size_t N, int K, bool canary);
+    IMachine *make_p_small_rest(bool str, bool trk, size_t N, int K, bool canary);
+    IMachine *make_p_big_trk(bool str, bool trk, size_t N, int K, bool canary);
+    IMachine *make_p_big_rest(bool str, bool trk, size_t N, int K, bool canary);
 }
 
 #endif
